@@ -3,6 +3,7 @@ import Tbx.Model.Flow
 import Tbx.Model.FlowDinic
 import Tbx.Model.FlowLegacy
 import Tbx.Model.FlowGeneric
+import Tbx.Model.InertialFlow
 import Tbx.Spec.Flow
 /-
 Shared driver code of C01 (max-flow value) and C02 (canonical minimum cut).
@@ -10,6 +11,8 @@ Shared driver code of C01 (max-flow value) and C02 (canonical minimum cut).
 ops:   st <s> <t>            header
        gen <k>               optional header: the solvers are built with `from_generic_edge_list` and the
                              capacity closure number k (`Tbx.Flow.genCap`); the e lines then carry raw payloads
+       ub <B>                optional header: the solvers are run with `run_with_upper_bound(Arc(AtomicI32(B)))`
+                             instead of `run()` (family `bounded`)
        e <u> <v> <cap>       one input edge per line, in input order
 
 Domain (else `J skip`): non-empty list, capacities (after the closure) ≥ 0, s ≠ t both nodes, and the two
@@ -25,6 +28,13 @@ obs, for each solver X in dinic, ek, ff (in this order):
   F X res=u:v:c,…             final residual graph (`verif_residual()`): depends on the augmenting paths
                               chosen, hence free; the judge runs the kernel-checked certificate on it
 
+Bounded cases (`ub B`, F = the true maximum flow): Dinic honours the bound (model: `InertialFlow.runBounded`),
+EdmondsKarp/FordFulkerson discard it (pinned by /repo's unit tests `run_with_upper_bound_no_effect`).
+  B ≥ F: every solver must complete; flow and assignment are determined exactly as for `run()` (D lines).
+  B < F: what Dinic does is C04's clause, not C01/C02's: its flow/assign lines are class F (free); the judge
+         still certifies a value if one is reported.  EK/FF must complete (D lines).
+  `F X bound=<value of the atomic afterwards>` is free here (C04 decides it).
+
 Judge (on the I lines only): C01 `certFast edges s t res flow` (= `certOK`, `certFast_eq`) for every solver (⇒ flow is THE maximum,
 `Tbx.FlowTheory.certOK_sound`) and pre = ERR,ERR;  C02 `minCutFast edges s t res flow bits` (= `minCutOK`) for every
 solver (⇒ bits is the inclusion-minimal minimum cut, `Tbx.FlowTheory.minCutOK_sound`).
@@ -39,6 +49,7 @@ structure Inp where
   t : Nat
   edges : List E            -- as written on the e lines (payloads when `gen` is present)
   gen : Option Nat := none
+  ub : Option Int := none
 deriving Inhabited
 
 def parseInp (ops : Array String) : Option Inp := Id.run do
@@ -47,8 +58,13 @@ def parseInp (ops : Array String) : Option Inp := Id.run do
   let mut haveSt := false
   let mut gen : Option Nat := none
   let mut es : Array E := #[]
+  let mut ub : Option Int := none
   for l in ops do
     match words l with
+    | ["ub", b] =>
+      match parseInt? b with
+      | some b => ub := some b
+      | none => return none
     | ["gen", k] =>
       match k.toNat? with
       | some k => gen := some k
@@ -62,7 +78,7 @@ def parseInp (ops : Array String) : Option Inp := Id.run do
       | some u, some v, some c => es := es.push (u, v, c)
       | _, _, _ => return none
     | _ => return none
-  if haveSt then return some { s := s, t := t, edges := es.toList, gen := gen } else return none
+  if haveSt then return some { s := s, t := t, edges := es.toList, gen := gen, ub := ub } else return none
 
 def bit (b : Bool) : String := if b then "1" else "0"
 def bitsS (bs : List Bool) : String := String.join (bs.map bit)
@@ -111,6 +127,8 @@ structure RunObs where
   assign : String
   res    : List E
   stuck  : Bool
+  bound  : Option Int := none    -- value of the shared bound after a bounded run
+  free   : Bool := false         -- flow/assign lines are class F (bounded Dinic run with bound < max flow)
 deriving Inhabited
 
 /-- the capacity closure of the case (identity for `from_edge_list` cases) -/
@@ -131,6 +149,22 @@ def runDinic (inp : Inp) (fuel : Nat) : RunObs × Option Dinic :=
       ({ pre := pre, flow := outIntS d.maxFlow?, assign := outBitsS a, res := d.g.triples,
          stuck := a matches .stuck }, some d)
 
+/-- `run_with_upper_bound(B)` on the Dinic model; `trueFlow` = the unbounded model's (proved maximal) value -/
+def runDinicBounded (inp : Inp) (fuel : Nat) (B : Int) (trueFlow : Option Int) : RunObs :=
+  match Dinic.fromGenericEdgeList (capFn inp) (toEdges inp.edges) inp.s inp.t with
+  | none => { pre := "STUCK", flow := "STUCK", assign := "STUCK", res := [], stuck := true }
+  | some d0 =>
+    let pre := outIntS d0.maxFlow? ++ "," ++ outBitsS (d0.assignment? inp.s)
+    match InertialFlow.runBounded d0 fuel B with
+    | none => { pre := pre, flow := "STUCK", assign := "STUCK", res := [], stuck := true }
+    | some (d, b') =>
+      let a := d.assignment? inp.s
+      { pre := pre, flow := outIntS d.maxFlow?, assign := outBitsS a, res := d.g.triples,
+        stuck := a matches .stuck, bound := some b',
+        free := match trueFlow with
+                | some f => decide (B < f)
+                | none => true }
+
 def runSolver (inp : Inp) (fuel : Nat) (ek : Bool) : RunObs × Option Solver :=
   let d0 := Solver.fromGenericEdgeList (capFn inp) (toEdges inp.edges) inp.s inp.t
   let pre := outIntS d0.maxFlow? ++ "," ++ outBitsS (d0.assignment? inp.s)
@@ -142,11 +176,15 @@ def runSolver (inp : Inp) (fuel : Nat) (ek : Bool) : RunObs × Option Solver :=
        stuck := a matches .stuck }, some d)
 
 def renderObs (withPre withAssign : Bool) (solver : String) (o : RunObs) : Array String :=
+  let cls := if o.free then "F" else "D"
   let a : Array String := #[]
   let a := if withPre then a.push s!"D {solver} pre={o.pre}" else a
-  let a := a.push s!"D {solver} flow={o.flow}"
-  let a := if withAssign then a.push s!"D {solver} assign={o.assign}" else a
-  a.push s!"F {solver} res={triplesS o.res}"
+  let a := a.push s!"{cls} {solver} flow={o.flow}"
+  let a := if withAssign then a.push s!"{cls} {solver} assign={o.assign}" else a
+  let a := a.push s!"F {solver} res={triplesS o.res}"
+  match o.bound with
+  | some b => a.push s!"F {solver} bound={b}"
+  | none => a
 
 /-- is there a phase with two augmentations whose paths (source … target) share their first edge? -/
 def sharedPrefix (trace : List (Nat × List Nat × Int)) : Bool :=
@@ -189,9 +227,16 @@ def handle (withPre withAssign : Bool) (c : Case) : CaseOut := Id.run do
   let (od, dd) := runDinic inp fuel
   let (oe, de) := runSolver inp fuel true
   let (off, df) := runSolver inp fuel false
-  let model := renderObs withPre withAssign "dinic" od ++ renderObs withPre withAssign "ek" oe ++
-               renderObs withPre withAssign "ff" off
-  let modelStuck := od.stuck || oe.stuck || off.stuck
+  -- bounded cases: Dinic through `runBounded`, EK/FF discard the bound (it keeps its value)
+  let trueFlow := parseInt? od.flow
+  let odB := match inp.ub with
+    | some B => runDinicBounded inp fuel B trueFlow
+    | none => od
+  let oeB := { oe with bound := inp.ub }
+  let offB := { off with bound := inp.ub }
+  let model := renderObs withPre withAssign "dinic" odB ++ renderObs withPre withAssign "ek" oeB ++
+               renderObs withPre withAssign "ff" offB
+  let modelStuck := od.stuck || oe.stuck || off.stuck || odB.stuck
   -- no i32 overflow, part 2: the maximum flow value (the model's exact Int result) fits i32
   match parseInt? od.flow with
   | some x => if x > i32max then return { model := #[], verdict := .skip "maximum flow value exceeds i32 (capsFit)" }
@@ -214,15 +259,27 @@ def handle (withPre withAssign : Bool) (c : Case) : CaseOut := Id.run do
       | some p => verdict := .fail s!"{solver}: max_flow()/assignment() before run() returned {p} instead of Err"
       | none => verdict := .fail s!"{solver}: no observation before run ({" | ".intercalate (c.impl.toList.take 8)})"
     if !(verdict matches .ok) then break
-    let some flowS := obsField c.impl "D" solver "flow"
+    let some flowS := (obsField c.impl "D" solver "flow").orElse fun _ => obsField c.impl "F" solver "flow"
       | verdict := .fail s!"{solver}: no flow observation ({" | ".intercalate (c.impl.toList.take 8)})"
+    -- a bounded run may end without a result only where the bound is below the true maximum flow, and only
+    -- for the solver that honours the bound
+    if flowS == "ERR" then
+      match inp.ub, trueFlow with
+      | some B, some f =>
+        if solver != "dinic" then
+          verdict := .fail s!"{solver}: run_with_upper_bound({B}) ended without a result although this solver discards the bound"
+        else if f ≤ B then
+          verdict := .fail s!"{solver}: run_with_upper_bound({B}) ended without a result although the maximum flow {f} does not exceed the bound"
+        else
+          continue
+      | _, _ => pure ()
     let some x := parseInt? flowS
       | verdict := .fail s!"{solver}: max_flow() after run() returned {flowS}"
     let some res := (obsField c.impl "F" solver "res").bind parseTriples
       | verdict := .fail s!"{solver}: no residual graph observation"
     flows := flowS :: flows
     if withAssign then
-      let some aS := obsField c.impl "D" solver "assign"
+      let some aS := (obsField c.impl "D" solver "assign").orElse fun _ => obsField c.impl "F" solver "assign"
         | verdict := .fail s!"{solver}: no assignment observation"
       let some bits := parseBits aS
         | verdict := .fail s!"{solver}: assignment() after run() returned {aS}"
@@ -263,6 +320,7 @@ def handle (withPre withAssign : Bool) (c : Case) : CaseOut := Id.run do
                      ("maxaugsphase", toString (maxAugsInPhase trace)), ("sharedprefix", bit shared),
                      ("d1legacydiffers", bit d1),
                      ("ekaugs", toString ((de.map (·.augs)).getD 0)), ("ffaugs", toString ((df.map (·.augs)).getD 0)),
-                     ("flowpos", bit (od.flow != "0"))] }
+                     ("flowpos", bit (od.flow != "0")),
+                     ("bounded", bit inp.ub.isSome), ("boundedabort", bit (inp.ub.isSome && odB.flow == "ERR"))] }
 
 end Tbx.Drv.FlowCommon
